@@ -53,7 +53,7 @@ def reward_eq_makespan_any_duration_statement : Prop :=
       s.reward = some (- makespan i (ofMatrix i s.sched))
 
 /-- 1 stage, 2 machines, 1 job: duration 1 on machine 0 (where it is scheduled), 2 000 000 on machine 1 -/
-def big : Inst := ⟨1, 2, 1, fun _ m => if m = 0 then 1 else 2000000, fun p => p⟩
+def big : Inst := ⟨1, 2, 1, fun _ m => if m = 0 then 1 else 2000000, fun p => p, true⟩
 
 /-- … is false (known finding `ffsp-reward-sentinel-C03`): the reward is computed as the maximum of
 `schedule + duration` over *all* matrix entries, and an entry that still holds the sentinel −999999 wins
